@@ -3444,7 +3444,7 @@ class SFTPClientFile:
 
         if offset is not None:
             if size is None or size < 0:
-                size = (await self._end()) - offset
+                size = max((await self._end()) - offset, 0)
 
             try:
                 if self.read_len and size > \
@@ -3516,12 +3516,14 @@ class SFTPClientFile:
 
         if offset is not None:
             if size is None or size < 0:
-                size = (await self._end()) - offset
+                size = max((await self._end()) - offset, 0)
         else:
             offset = 0
             size = 0
 
-        return _SFTPFileReader(self.read_len, self._max_requests,
+        block_size = self.read_len or self._handler.limits.max_read_len
+
+        return _SFTPFileReader(block_size, self._max_requests,
                                self._handler, self._handle, offset,
                                size).iter()
 
